@@ -29,6 +29,9 @@ def single_regular_file_resolver(path: Path) -> Path:
     except (FileNotFoundError, NotADirectoryError):
         raise FileNotAccessibleSimpleError(path,
                                            ERR_MSG__NOT_EXISTS)
+    except (OSError, ValueError) as ex:
+        raise FileNotAccessibleSimpleError(path,
+                                           str(ex))
     if stat.S_ISREG(stat_mode):
         return path
     else:
